@@ -1143,3 +1143,33 @@ package nbs
 //@   nopanic bounds
 //@   requires ar != nil && ar.indexReader != nil && ar.reader != nil && cb != nil && errCb != nil && ctx != nil
 //@   requires ar.footer.dataSpan().length <= 1<<48
+
+// GenerationalNBS.Get: each generation is asked about the caller's address, a later one only when every earlier one
+// found nothing; the chunk handed back is the one the last generation asked returned, and nothing is handed back only
+// after both generations (and the ghost generation, when there is one) found nothing
+//@ func (*NomsBlockStore).Get
+//@   property C01
+//@   trusted event marker: the bytes come from the memtable / table / journal / archive lookups, which are under their own contracts
+//@   modifies nothing
+//@   ghost_set verif_ghost.gGetCount = verif_ghost.gGetCount + 1
+//@   ghost_set verif_ghost.gGetLastEmpty = result0.IsEmpty()
+//@   ghost_set verif_ghost.gGetLastHash = result0.Hash()
+//@   ghost_set verif_ghost.gGetLastStore = nbs
+//@ func (GhostBlockStore).Get
+//@   property C01
+//@   trusted event marker
+//@   modifies nothing
+//@   ghost_set verif_ghost.gGetCount = verif_ghost.gGetCount + 1
+//@   ghost_set verif_ghost.gGetLastEmpty = result0.IsEmpty()
+//@   ghost_set verif_ghost.gGetLastHash = result0.Hash()
+//@   ghost_set verif_ghost.gGetGhost = true
+//@ func (*GenerationalNBS).Get
+//@   property C01
+//@   requires gcs != nil && gcs.newGen != nil && gcs.oldGen != nil && gcs.newGen != gcs.oldGen
+//@   requires verif_ghost.gGetCount == 0 && verif_ghost.gGetLastStore == nil && !verif_ghost.gGetGhost
+//@   at call (*NomsBlockStore).Get: assert (arg0:*NomsBlockStore == gcs.newGen || arg0:*NomsBlockStore == gcs.oldGen) && arg0:*NomsBlockStore != verif_ghost.gGetLastStore && arg2:hash.Hash == h
+//@   at call (*NomsBlockStore).Get: assert verif_ghost.gGetCount == 0 || verif_ghost.gGetLastEmpty
+//@   at call (GhostBlockStore).Get: assert verif_ghost.gGetCount == 2 && verif_ghost.gGetLastEmpty && arg2:hash.Hash == h
+//@   ensures  result1 == nil ==> verif_ghost.gGetCount > 0 && result0.IsEmpty() == verif_ghost.gGetLastEmpty && result0.Hash() == verif_ghost.gGetLastHash
+//@   ensures  result1 == nil && verif_ghost.gGetLastEmpty ==> verif_ghost.gGetCount >= 2 && (gcs.ghostGen == nil || verif_ghost.gGetGhost)
+//@   also_modifies verif_ghost.gGetCount, verif_ghost.gGetLastEmpty, verif_ghost.gGetLastHash, verif_ghost.gGetLastStore, verif_ghost.gGetGhost
